@@ -28,7 +28,7 @@ CLAUSES = [
       "SCoda.C04.refresh_refines", "SCoda.C04.copy_inv"]),
     ("histories of the PUBLIC operations of the concrete wrapper model (one constructor per driver op, `Legal` states the argument restrictions once): "
      "from a state satisfying the invariant every legal operation succeeds and re-establishes it; after any legal history both reads succeed and describe "
-     "the same timed events (up to the order of simultaneous ones) and the same duration; with any arguments at all a readable state stays readable unless an "
+     "the same timed events (up to the order of simultaneous ones) and the same duration; with any arguments at all the MODEL's stale-flag protocol keeps a readable state readable (the model's view links are total; in the real code three argument classes outside `Legal` behave differently — scale(0) and quantise([0]) raise ZeroDivisionError, add_absolute_message(WAIT) followed by pad leaves a sequence whose every later `.abs` raises TypeError: replayed, audit round 4 C1, so this sentence is about the flag protocol, not about arbitrary arguments of the real code) unless an "
      "empty step list is handed to quantise (audit A3)",
      ["SCoda.C04c.exec_total", "SCoda.C04c.exec_inv", "SCoda.C04c.history_inv", "SCoda.C04c.views_agree_after", "SCoda.C04c.readable",
       "SCoda.C04c.views_agree", "SCoda.C04c.read_keeps_views", "SCoda.C04c.exec_ok_of_readable", "SCoda.C04c.exec_error_only",
@@ -58,7 +58,7 @@ CLAUSES = [
     ("tripwire: every public name of Sequence found by introspection (regenerated list) appears in the hand-written classification table and "
      "vice versa — a new or removed public method breaks it; it says nothing about what the methods do",
      ["SCoda.C04.ops_covered", "SCoda.C04.ops_exist"]),
-    ("C04 FOR THE TRANSLATED SOURCE WITH NO FALLBACK ON THE MODEL (audit round 3 R7): genRunStrict executes every step by the translation of sequence.py and answers 'no translated counterpart' instead of falling back on the hand model; from a state in the invariant any legal history over the translated entries runs to the end, keeps the invariant and leaves both views readable and in agreement. The translated step exists EXACTLY for the hasGen entries, for every state, equals included, and equals the model's step there. 'Every alphabet entry has a translated counterpart' is FALSE: editAbsFirst / editRelFirst are a consumer abandoning a generator after the first message, and pairings (Sequence.get_message_pairings) is not in the wrapper translator's list, its effect being the heap-level AbsTie2.pairings_init, composed in pairings_gen_state; those three stay covered by C04c.history_inv plus the sampled correspondence",
+    ("C04 FOR THE TRANSLATED SOURCE WITH NO FALLBACK ON THE MODEL (audit round 3 R7): genRunStrict executes every step by the translation of sequence.py and answers 'no translated counterpart' instead of falling back on the hand model; from a state in the invariant any legal history over the translated entries runs to the end, keeps the invariant and leaves both views readable and in agreement. The translated step exists EXACTLY for the hasGen entries, for every state, equals included, and equals the model's step there. 'Every alphabet entry has a translated counterpart' is FALSE: editAbsFirst / editRelFirst are a consumer abandoning a generator after the first message, and pairings (Sequence.get_message_pairings) is not in the wrapper translator's list, its effect being the heap-level AbsTie2.pairings_init, composed in pairings_gen_state; those three stay covered by C04c.history_inv plus the sampled correspondence; history_readable_illegal_strict (readability without `Legal`) is, like C04c.history_readable, a fact about the flag protocol over TOTAL view links — at scale(0), quantise([0]) and add_absolute_message(WAIT) the real code raises where the model answers (audit round 4 C1, replayed)",
      ["SCoda.C04e.genExec2_isSome", "SCoda.C04e.genExec_isSome", "SCoda.C04e.hasGen_false_iff", "SCoda.C04e.genExec2_eq", "SCoda.C04e.genExec2_total_partial", "SCoda.C04e.genExec_total_statement_false", "SCoda.C04e.genExec2_total_statement_false", "SCoda.C04e.genRunStrict_eq", "SCoda.C04e.genRunStrict_none", "SCoda.C04e.genRunStrict_eq_none", "SCoda.C04e.genRun_uses_gen", "SCoda.C04e.history_inv_strict", "SCoda.C04e.history_readable_strict", "SCoda.C04e.views_agree_after_strict", "SCoda.C04e.history_readable_illegal_strict", "SCoda.C04e.pairings_gen_state"]),
     ("TIE BY TRANSLATION of the sort that every absolute-view operation goes through: AbsoluteSequence.sort (its list.sort call and the key lambda (time, -1 if channel is None else channel, message_type, note)), MessageType.__lt__ and the declaration order of the enum members are re-translated expression by expression on every run (Gen/SortFns.lean, tools/py2lean_sort.py; Python's == and < on None / int / enum members, tuple comparison, list.index and list.sort are the language model Model/SortLib.lean) and proved equal to the hand model: on every message list whose keys Python can compare (the times are all None or all ints; two messages equal in (time, channel, type) have both notes None or both ints) the translated sort returns exactly sortAbs l, through any projection (heap references, tagged messages); outside that domain it raises TypeError, as the real code does (replayed: a NOTE_ON with a note and a hand-built NOTE_ON without one on the same tick and channel; a message without a time in a timed sequence; two TIME_SIGNATUREs on one tick and channel are inside the domain); keyLe a b holds iff key(b) < key(a) is False; Python's key order is a strict weak order on the domain and ANY stable sort by it (a permutation that is sorted and keeps the relative order of equal keys) is sortAbs l — modelling CPython's timsort by an insertion sort is a theorem, the one assumption left is that list.sort is a stable comparison sort. This discharges the list.sort links of tools/py2lean.py (sort -> sortAbs) and tools/py2lean_abs2.py (sortRefs), which until now were only fingerprinted (tools/conventions.py)",
      ["SCoda.SortTie.sort_eq", "SCoda.SortTie.sortOf_eq_isort", "SCoda.SortTie.sort_raises", "SCoda.SortTie.sortOf_raises", "SCoda.SortTie.sort_ok_iff", "SCoda.SortTie.keyLe_iff", "SCoda.SortTie.keyLt_eq", "SCoda.SortTie.keyLt_ok_iff_comparable", "SCoda.SortTie.messageTypeLt_eq", "SCoda.SortTie.messageTypeLt_nonmember", "SCoda.SortTie.members_eq", "SCoda.SortTie.memberNames_eq", "SCoda.SortTie.generated_order_strictWeakOrder", "SCoda.SortTie.any_stable_sort_eq_sortAbs", "SCoda.SortTie.stable_sort_is_isortBy", "SCoda.SortTie.isortBy_is_stable_sort", "SCoda.SortTie.sortDom_of_wellFormed", "SCoda.SortTie.sortRefs_discharged", "SCoda.SortTie.viewSort_discharged", "SCoda.SortTie.sort_eq_statement_false", "SCoda.SortTie.keyLe_iff_statement_false"]),
@@ -70,7 +70,7 @@ RULE = ("random histories (<=12 ops quick, <=40 thorough) over the full public a
         "and with a harness-side prediction of the operation's effect; split pieces are read too; from each of the three freshness states, driven through real "
         "Sequence objects and the Lean wrapper machine; plus the complete table op x freshness state; "
         "non-trivial = history with >= 3 mutators and sequence with >= 1 note")
-ASSUMPTIONS = ["model: Seq machine (Model/Wrapper.lean) instantiated with the modelled functions, compared step by step",
+ASSUMPTIONS = ["model: Seq machine (Model/Wrapper.lean) instantiated with the modelled functions: every wrapper method except the three named in C04e.hasGen_false_iff is tied by translation (WrapTie, C04d, C04e), every view-level function by ViewTie / RelTie2 / AbsTie2 / SortTie; additionally compared step by step on random histories",
                "excluded as not legal (DESIGN C04): invalidate_* by hand, out-of-order time edits through an iterator"]
 MUTATORS = {"editAbsPeek", "editRelPeek", "editAbsFirst", "editRelFirst", "normalise", "pad", "setChannel", "cutoff", "quantise", "qnl", "quantiseAndNormalise", "transpose", "scale",
             "editAbs", "editRel", "overwriteAbs", "overwriteRel", "merge", "concat", "addAbs", "addRel"}
